@@ -59,6 +59,38 @@ def queueCmd (args : List String) : String :=
     " ; ".intercalate outs
   | _ => "bad-op"
 
+/-- scheduler for `queueblk`: the producer runs whenever it can, else the ticker, else the consumer receives -/
+def blkRun : Nat → QSt Nat → QSt Nat
+  | 0, s => s
+  | fuel + 1, s =>
+    let try1 (ls : List QLabel) : Option (QSt Nat) := ls.findSome? fun l => qStep s l
+    match try1 [.append 0, .send 0, .release 0, .acquire 0] with
+    | some s' => blkRun fuel s'
+    | none =>
+      match try1 [.tSend, .tRelease, .tAcquire] with
+      | some s' => blkRun fuel s'
+      | none =>
+        match qStep s .recv with
+        | some s' => blkRun fuel s'
+        | none => s
+
+/-- `queueblk <thr> <cap> <n>`: one `Queue(n events)` call on a channel of capacity `cap`, a flush tick requested
+    while the producer is inside the call (it holds the mutex, possibly blocked on the full channel), then the
+    consumer drains everything. Result: all batches in delivery order and the final queue length. -/
+def queueblkCmd : List String → String
+  | [thr, cap, n] =>
+    match thr.toNat?, cap.toNat?, n.toNat? with
+    | some t, some c, some k =>
+      let s0 : QSt Nat := qInit t c [[List.range k]] 1
+      -- the producer enters first (the harness waits until it is inside before it fires the tick)
+      let s1 := (qStep s0 (.acquire 0)).getD s0
+      let s := blkRun (4 * k + 4 * c + 20) s1
+      -- empty tick batches carry nothing and are ignored by both sides
+      let bs := (s.delivered.filter (!·.isEmpty)).map fun b => "[" ++ ",".intercalate (b.map toString) ++ "]"
+      s!"got={" ".intercalate bs} len={s.q.length}"
+    | _, _, _ => "bad-op"
+  | _ => "bad-op"
+
 def parseNatList (s : String) : List Nat :=
   if s == "-" then [] else (s.splitOn ",").filterMap (·.toNat?)
 
